@@ -72,6 +72,26 @@ type Def struct {
 	Source  string    `json:"source"`
 	Structs []SStruct `json:"structs,omitempty"` // gsort only, in -types order
 	Counts  map[string]int `json:"counts"`       // how many of each map-kept thing the definition has
+	Enums   []EnumInfo `json:"enums,omitempty"`  // genum only
+	Errors  []ErrInfo  `json:"errors,omitempty"` // gerror only
+}
+
+// EnumValue / EnumInfo: what the judge needs to know about a genum definition.
+type EnumValue struct {
+	Name  string `json:"name"`
+	Value int64  `json:"value"`
+	Depr  bool   `json:"depr"`
+}
+type EnumInfo struct {
+	Type   string      `json:"type"`
+	Values []EnumValue `json:"values"`
+	Traits []string    `json:"traits"` // method names
+}
+
+// ErrInfo: a gerror type and its tagged field names.
+type ErrInfo struct {
+	Type   string   `json:"type"`
+	Fields []string `json:"fields"`
 }
 
 func must(err error) {
@@ -205,6 +225,7 @@ func genumDef(r *rand.Rand, n int) Def {
 				}
 			}
 		}
+		info := EnumInfo{Type: name}
 		fmt.Fprintf(&body, "// %s is a farm enum.\ntype %s %s\n\n// Values of %s.\nconst (\n", name, name, under, name)
 		cell := func(j, i int) string {
 			v := kinds[j].vals[i%len(kinds[j].vals)]
@@ -229,8 +250,11 @@ func genumDef(r *rand.Rand, n int) Def {
 				val = first
 			}
 			rhs = append(rhs, fmt.Sprintf("%s(%s)", name, val))
+			iv, _ := strconv.ParseInt(val, 10, 64)
+			info.Values = append(info.Values, EnumValue{Name: vname(i), Value: iv})
 			for j := 0; j < ntr; j++ {
 				if i == 0 {
+					info.Traits = append(info.Traits, strings.ToUpper(tnames[j][:1])+tnames[j][1:]+name)
 					pre := "_"
 					if r.IntN(3) == 0 {
 						pre = ""
@@ -250,12 +274,14 @@ func genumDef(r *rand.Rand, n int) Def {
 			target := 1 + r.IntN(nv-1)
 			dn := fmt.Sprintf("%sDup%d", name, k)
 			ln := ""
-			if r.IntN(3) == 0 {
+			dep := r.IntN(3) == 0
+			if dep {
 				ln = "\t// Deprecated: use " + vname(target) + ".\n"
 				d.Counts["deprecated_duplicates"]++
 			} else {
 				d.Counts["plain_duplicates"]++
 			}
+			info.Values = append(info.Values, EnumValue{Name: dn, Value: int64(target), Depr: dep})
 			if ntr > 0 && r.IntN(2) == 0 {
 				lhs, rhs := []string{dn}, []string{vname(target)}
 				for j := 0; j < ntr; j++ {
@@ -271,6 +297,7 @@ func genumDef(r *rand.Rand, n int) Def {
 		body.WriteString(strings.Join(lines, "\n"))
 		body.WriteString("\n)\n\n")
 		d.Types = append(d.Types, name)
+		d.Enums = append(d.Enums, info)
 		d.Counts["traits"] += ntr
 		d.Counts["duplicate_groups"] += ndup
 		d.Counts["values"] += nv
@@ -319,6 +346,7 @@ func gerrorDef(r *rand.Rand, n int) Def {
 		name := fmt.Sprintf("%sErr%d", strings.ToUpper(words[t][:1])+words[t][1:], n)
 		nf := 2 + r.IntN(4)
 		fnames := shuffled(r, []string{"Zip", "Alpha", "Code", "Msg", "Beta", "Wait", "Kind"})[:nf]
+		einfo := ErrInfo{Type: name}
 		fmt.Fprintf(&b, "// %s is a farm error.\ntype %s struct {\n\tgerror.GError\n", name, name)
 		for i := 0; i < nf; i++ {
 			ft := []string{"string", "int", "time.Duration", fmt.Sprintf("Status%d", n), "[]string"}[r.IntN(5)]
@@ -329,9 +357,11 @@ func gerrorDef(r *rand.Rand, n int) Def {
 			}
 			fmt.Fprintf(&b, "\t%s %s `gerror:\"%s,%s\"`\n", fnames[i], ft, pa, strings.Join(tag, ","))
 			d.Counts["tagged_fields"]++
+			einfo.Fields = append(einfo.Fields, fnames[i])
 		}
 		b.WriteString("\tInternal string\n}\n\n")
 		d.Types = append(d.Types, name)
+		d.Errors = append(d.Errors, einfo)
 	}
 	d.Counts["types"] = nt
 	d.Types = shuffled(r, d.Types)
@@ -478,6 +508,81 @@ type jcase struct {
 	Obs     []obs    `json:"obs"`
 	Outputs []string `json:"outputs"` // the distinct outputs seen (first two kept in full)
 	Blocks  [][2]string `json:"blocks,omitempty"` // gsort: (sorter, type) per block of the output, file order
+	// genum: per trait method and per _XValues list the value names in file order;
+	// genum: per enum the trait method names in file order; gerror: per Error() / toPrimaryType the field names
+	ValueOrders [][]string `json:"value_orders,omitempty"`
+	NameOrders  [][]string `json:"name_orders,omitempty"`
+}
+
+// orderObs extracts the order-bearing lists from a generated file.
+func orderObs(d *Def, src string) (valueOrders, nameOrders [][]string) {
+	lines := strings.Split(src, "\n")
+	switch d.Gen {
+	case "genum":
+		for _, e := range d.Enums {
+			isTrait := map[string]bool{}
+			for _, t := range e.Traits {
+				isTrait[t] = true
+			}
+			var traitOrder []string
+			for i := 0; i < len(lines); i++ {
+				t := strings.TrimSpace(lines[i])
+				// var _XValues = []X{ ... }
+				if t == "var _"+e.Type+"Values = []"+e.Type+"{" {
+					var vs []string
+					for i++; i < len(lines) && strings.TrimSpace(lines[i]) != "}"; i++ {
+						vs = append(vs, strings.TrimSuffix(strings.TrimSpace(lines[i]), ","))
+					}
+					valueOrders = append(valueOrders, vs)
+					continue
+				}
+				pre := "func (e " + e.Type + ") "
+				if strings.HasPrefix(t, pre) {
+					name := t[len(pre):]
+					if k := strings.Index(name, "("); k > 0 {
+						name = name[:k]
+					}
+					if !isTrait[name] {
+						continue
+					}
+					traitOrder = append(traitOrder, name)
+					var cs []string
+					for i++; i < len(lines) && lines[i] != "}"; i++ {
+						c := strings.TrimSpace(lines[i])
+						if strings.HasPrefix(c, "case ") && strings.HasSuffix(c, ":") {
+							cs = append(cs, strings.TrimSuffix(strings.TrimPrefix(c, "case "), ":"))
+						}
+					}
+					valueOrders = append(valueOrders, cs)
+				}
+			}
+			nameOrders = append(nameOrders, traitOrder)
+		}
+	case "gerror":
+		for _, e := range d.Errors {
+			in := false
+			var fs []string
+			for _, ln := range lines {
+				if strings.HasPrefix(ln, "func (e *"+e.Type+") Error() string {") {
+					in = true
+					continue
+				}
+				if in && ln == "}" {
+					break
+				}
+				if in {
+					if k := strings.Index(ln, "%v\", e."); k > 0 {
+						f := ln[k+len("%v\", e."):]
+						if j := strings.Index(f, ")"); j > 0 {
+							fs = append(fs, f[:j])
+						}
+					}
+				}
+			}
+			nameOrders = append(nameOrders, fs)
+		}
+	}
+	return valueOrders, nameOrders
 }
 
 func galStr(s string) string { return gal.Str(s) }
@@ -654,6 +759,9 @@ func main() {
 				}
 			}
 		}
+		if len(shas) > 0 {
+			jc.ValueOrders, jc.NameOrders = orderObs(d, outputs[i][shas[0]])
+		}
 		// Gallina: hashes (an empty string = no output file; errors folded into the string so
 		// that "same error every time" is also "equal")
 		hs := gal.ListOf(all[i], func(o obs) string { return galStr(o.Sha + "|" + o.Err) })
@@ -666,7 +774,28 @@ func main() {
 			}))
 		})
 		blocks := gal.ListOf(jc.Blocks, func(b [2]string) string { return gal.Pair(galStr(b[0]), galStr(b[1])) })
-		g := "{| gd_kind := " + galStr(d.Gen) + "; gd_hashes := " + hs + "; gd_types := " + types + "; gd_blocks := " + blocks + " |}"
+		evOf := map[string]string{}
+		for _, e := range d.Enums {
+			for _, v := range e.Values {
+				bits := "(" + strconv.FormatInt(v.Value, 10) + ")%Z"
+				if v.Value < 0 { // the uint64 bits of a negative constant
+					bits = "(18446744073709551616 + (" + strconv.FormatInt(v.Value, 10) + "))%Z"
+				}
+				evOf[v.Name] = "{| ev_name := " + galStr(v.Name) + "; ev_value := " + bits + "; ev_signed := " + gal.Bool(v.Value < 0) +
+					"; ev_depr := " + gal.Bool(v.Depr) + " |}"
+			}
+		}
+		vorders := gal.ListOf(jc.ValueOrders, func(vs []string) string {
+			return gal.ListOf(vs, func(n string) string {
+				if g, ok := evOf[n]; ok {
+					return g
+				}
+				return "{| ev_name := " + galStr("?"+n) + "; ev_value := 0%Z; ev_signed := false; ev_depr := false |}"
+			})
+		})
+		norders := gal.ListOf(jc.NameOrders, func(ns []string) string { return gal.ListOf(ns, galStr) })
+		g := "{| gd_kind := " + galStr(d.Gen) + "; gd_hashes := " + hs + "; gd_types := " + types + "; gd_blocks := " + blocks +
+			"; gd_value_orders := " + vorders + "; gd_name_orders := " + norders + " |}"
 		out.Case(g, jc)
 	}
 	out.Close()
